@@ -3,8 +3,11 @@ module verif
 go 1.16
 
 require (
+	github.com/pingcap/kvproto v0.0.0-20210604082642-dda0a102bc6a
+	github.com/pingcap/log v0.0.0-20210317133921-96f4fcab92a4
 	github.com/tikv/pd v0.0.0
 	go.etcd.io/etcd v0.5.0-alpha.5.0.20191023171146-3cf2f69b5738
+	go.uber.org/zap v1.16.0
 	google.golang.org/grpc v1.26.0
 )
 
